@@ -399,21 +399,12 @@ impl SyncController {
         let ht_pages = self.ht_to_write.lock().take().unwrap();
         // Writeout the HT pages and truncate the WAL file.
         //
-        // Why don't we fsync the truncation of the WAL file? Because it should not be necessary.
-        // To see why, recall that we write WAL at pre-meta stage, truncate it here and we only
-        // read from it at recovery. Leaving the truncation unfsynced introduces some uncertainty
-        // regarding the length of the file.
-        //
-        // However,
-        //
-        // 1. if we reach the commit after this one we are going to fsync the WAL with the
-        //    new contents.
-        // 2. if we crash before the next commit and if the WAL ended up not truncated, we just
-        //    reapply the changes from the WAL which must be a noop.
-        //
-        // Therefore, we can safely avoid blocking on the truncation here.
+        // The truncation is fsynced. The next sync rewrites the WAL in place: if the truncation were
+        // still pending then, the old blob could still be on disk, and a power loss during the
+        // rewrite could leave the old header page - whose sequence number matches the manifest -
+        // followed by pages of the new blob, which recovery would then try to re-apply.
         writeout::write_ht(io_handle, &self.db.shared.ht_fd, ht_pages)?;
-        writeout::truncate_wal(&self.db.shared.wal_fd, false)?;
+        writeout::truncate_wal(&self.db.shared.wal_fd, true)?;
         Ok(())
     }
 }
